@@ -84,6 +84,9 @@ func propC15(c *Ctx) {
 	}
 	c.extra["object_type_names"] = names
 
+	rmp := c.Rule("map-equal-presence", "Map.Equal tests the presence of every key of the receiver in the other map (comma-ok lookup): equality of maps is symmetric also when values are undefined", 1)
+	ruleMapEqualPresence(c, rmp)
+
 	// ---- Equal table ---------------------------------------------------------
 	rs := c.Rule("eq-sym", "Equal is symmetric on types: T accepts R (some path of T.Equal can return true for a right operand of dynamic type R) iff R accepts T, and both directions compare in the same domain (the operand type of the deciding == comparisons); extracted by partial evaluation of every Equal method with delegations followed", 100)
 	if c.Anchor(rs, "Object implementations in package ugo (fewer than 15 found)", len(otypes) >= 15) {
